@@ -355,6 +355,13 @@ def gen_world(
             var["formulas"][s] = ["b", pick(rng, ["+", "max", "-"]), var["formulas"][s], leaf]
             if leaf[0] == "rd":
                 hot.update((i, j))
+    # (Eternal variables are never put inside a quasi-circular chain: an eternal
+    # variable is one value, so a chain through it is a true circular definition -
+    # which the engine does not recognise as such because the *requested* periods
+    # differ - and a formula that makes it depend on the period asked for
+    # contradicts its declaration.  Such rule systems are outside the worlds
+    # generated; tried, and the literal C02 oracle rightly rejects what the engine
+    # does with them: the nested computation's value is consumed, then overwritten.)
     if discipline in ("spiral", "spiral_cyclic") and hot:
         # readers of the quasi-circular variables: siblings that reach the same
         # entries again later in the same request (as cache hits), directly and
@@ -514,6 +521,8 @@ def period_for_unit(rng: random.Random, unit: str) -> str:
     if unit == "month":
         return f"{y}-{rng.randint(1, 12):02d}"
     if unit == "day":
+        if chance(rng, 0.25):  # month ends, leap days, year boundaries
+            return pick(rng, ["2018-01-31", "2018-02-28", "2020-02-29", "2016-02-29", "2018-12-31", "2019-01-01", "2018-04-30"])
         return f"{y}-{rng.randint(1, 12):02d}-{rng.randint(1, 28):02d}"
     if unit == "eternity":
         # requests for eternal variables use an ordinary period (formula lookup
@@ -521,8 +530,12 @@ def period_for_unit(rng: random.Random, unit: str) -> str:
         # either spelling
         return pick(rng, ["2018-01", "2019-05", "2018"])
     if unit == "week":
+        if chance(rng, 0.3):  # weeks that straddle a year boundary, week 53
+            return pick(rng, ["2019-W01", "2020-W01", "2018-W01", "2015-W53", "2020-W53", "2018-W52", "2026-W01"])
         return f"{y}-W{rng.randint(1, 52):02d}"
     if unit == "weekday":
+        if chance(rng, 0.3):
+            return pick(rng, ["2019-W01-1", "2019-W01-2", "2020-W01-1", "2020-W53-5", "2018-W52-7", "2015-W53-4"])
         return f"{y}-W{rng.randint(1, 52):02d}-{rng.randint(1, 7)}"
     raise ValueError(unit)
 
